@@ -170,8 +170,12 @@ def run_real(ctx, cases, entry="sequential", own_val=0.0, nminus1_tables=()):
         net[el]["max_loading_percent_nminus1"] = ctx.series([lim[(el, i)] for e2, i in MT_ELEMENTS if e2 == el], index=net[el].index)
     L, VM = {}, {}
 
+    seen_out = []
+    L["__seen_out__"] = seen_out
+
     def evaluate(net_, **kw):
         out = [(el, i) for el, i in MT_ELEMENTS if not bool(net_[el].at[i, "in_service"])]
+        seen_out.append(out)
         case = out[0] if out else None
         tag = "n0" if case is None else f"{case[0]}{case[1]}"
         for el in ("line", "trafo", "trafo3w"):
@@ -216,6 +220,11 @@ def run_real(ctx, cases, entry="sequential", own_val=0.0, nminus1_tables=()):
 
 
 def obligations_real(ctx, cases, net, cr, L, lim, VM, label=""):
+    seen = L.get("__seen_out__", [])
+    ctx.true(f"{label}every_power_flow_sees_at_most_its_own_outage", all(len(o) <= 1 for o in seen))
+    ctx.true(f"{label}every_case_and_the_base_case_are_evaluated", sorted(map(str, [o[0] if o else None for o in seen])) == sorted(map(str, list(cases) + [None])))
+    if not all(len(o) <= 1 for o in seen) or any((None, e) not in L for e in MT_ELEMENTS):
+        return
     for el in ("line", "trafo", "trafo3w"):
         ctx.true(f"{label}{el}/reported", el in cr and "max_loading_percent" in cr[el])
         if el not in cr or "max_loading_percent" not in cr[el]:
